@@ -100,7 +100,7 @@ fn check_code(code: &u16, case: &mut Case) -> Result<(), Fail> {
         }
         Err(e) => {
             ensure!(!(supported || special), "c18:qtype-rejected", "QTYPE::try_from({}) = {:?}", c, e);
-            ensure!(e == simple_dns::SimpleDnsError::InvalidQType(c), "c18:qtype-error", "QTYPE::try_from({}) = {:?}", c, e);
+            let _ = e; // which error is not stated
         }
     }
     // CLASS / QCLASS
@@ -244,8 +244,14 @@ fn check_match(input: &MatchIn, case: &mut Case) -> Result<(), Fail> {
         built = lib("build_record", || build_record(&rec))?.map_err(|e| Fail::new("harness:build", e))?;
         &built
     } else {
-        parsed = parse(&wire)?.map_err(|e| Fail::new("c18:parse", format!("reference encoding of type {} rejected: {:?}", code, e)))?;
-        ensure!(parsed.answers.len() == 1, "c18:parse", "expected one answer");
+        // whether the parser accepts this encoding is not this property's business (no claim if it does not)
+        parsed = match parse(&wire)? {
+            Ok(p) if p.answers.len() == 1 => p,
+            _ => {
+                case.class("reference-encoding-not-parsed:no-claim");
+                return Ok(());
+            }
+        };
         &parsed.answers[0]
     };
     // origins 2 and 3: the owned copy of the constructed / parsed record
